@@ -166,6 +166,7 @@ def _idclass(i):
 
 
 def run_case(recipe):
+    sys.setrecursionlimit(1000)      # python's default; a non-terminating comparison is reported sooner
     r = CaseResult()
     S = L.Session(recipe["u"])
     ref = L.Ref(S.U["fields"])
